@@ -294,7 +294,10 @@ func projTree(root *potree.OctreeNode) map[string]any {
 	walk(root)
 	visited := 0
 	root.Walk(func(o *potree.OctreeNode) bool { visited++; return true })
-	return map[string]any{"nodes": nodes, "height": root.Height(), "desc": root.DescendentCount(),
+	// a walk that does not descend below the root's children
+	visited1 := 0
+	root.Walk(func(o *potree.OctreeNode) bool { visited1++; return o.Level < 1 })
+	return map[string]any{"nodes": nodes, "walk1": visited1, "height": root.Height(), "desc": root.DescendentCount(),
 		"pcount": integer(float64(root.PointCount())), "maxp": root.MaxPointCount(), "walk": visited}
 }
 
